@@ -553,13 +553,16 @@ class Driver:
         """make the process the bus started for op['n'] end (status / signal); None if there is none running"""
         if not self.actdir:
             return None
-        # the process in question is the one the daemon started last for this name: wait for it to report in
+        # the process in question is the one the daemon started last for this name, if that start is still
+        # under way according to the daemon's own log: wait for it to report in
+        if not self.start_under_way(op['n']):
+            return None
         t0 = time.time()
         said = sum(d['k'] for d in self.daemon_starts() if d['n'] == B(op['n']))
         mine = []
-        while time.time() - t0 < 0.6:
+        while time.time() - t0 < 4.0:
             mine = [p for n, p in self.stub_starts() if n == op['n']]
-            if len(mine) >= said:
+            if len(mine) >= said or not self.start_under_way(op['n']):
                 break
             time.sleep(0.01)
         pid = mine[-1] if mine and len(mine) >= said else None
@@ -573,10 +576,29 @@ class Driver:
             f.write('%s %d\n' % ('kill' if op.get('signaled') else 'exit', op.get('status', 0)))
         os.rename(os.path.join(ctl, 'cmd.tmp'), os.path.join(ctl, 'cmd.%d' % pid))
         t0 = time.time()
-        while time.time() - t0 < 2.0 and os.path.exists('/proc/%d' % pid):
+        while time.time() - t0 < 2.0:
+            try:
+                if open('/proc/%d/stat' % pid).read().split(')')[-1].split()[0] in 'ZX':
+                    break
+            except OSError:
+                break
             time.sleep(0.003)
         time.sleep(0.06)       # the babysitter's report reaches the daemon
         return {'k': 'svc_exit', 'n': B(op['n']), 'status': op.get('status', 0), 'signaled': bool(op.get('signaled'))}
+
+    def start_under_way(self, n):
+        try:
+            log = open(self.daemon.errlog, errors='replace').read().splitlines()
+        except OSError:
+            return False
+        state = False
+        for ln in log:
+            if "Activating service name='%s' requested" % n in ln:
+                state = True
+            elif ("Successfully activated service '%s'" % n in ln or "Activated service '%s' failed" % n in ln
+                  or "Failed to activate service '%s'" % n in ln or "Failed to activate service %s:" % n in ln):
+                state = False
+        return state
 
     def daemon_starts(self):
         """how often the daemon says it started a process for each activatable name"""
